@@ -407,6 +407,12 @@ fn family_relate(r: &mut StdRng, scn: usize, n_req: usize, out: &mut Vec<Value>)
     knobs.n_docs = (300, 900);
     knobs.max_commits = 3;
   }
+  let spiky = scn % 4 == 3;
+  if spiky {
+    knobs.spiky = true;
+    knobs.n_docs = (300, 700);
+    knobs.max_commits = 2;
+  }
   let storage = storage_kind(r);
   let b = build_index(r, &knobs, storage)?;
   let reader = b.idx.reader()?;
@@ -420,10 +426,20 @@ fn family_relate(r: &mut StdRng, scn: usize, n_req: usize, out: &mut Vec<Value>)
   let mut searches = Vec::new();
   for i in 0..n_req {
     let depth = r.gen_range(0..=cfg.depth);
-    let q = gen_query(r, depth, &cfg);
+    let mut q = gen_query(r, depth, &cfg);
+    if spiky && i % 2 == 0 {
+      let term = |w: &str| Q::Term { field: "body".into(), value: w.into(), boost: None };
+      let should = |qs: Vec<Q>| Q::Bool { must: vec![], should: qs, must_not: vec![], filter: vec![], msm: None, boost: None };
+      q = match r.gen_range(0..4) {
+        0 => term("zig"),
+        1 => should(vec![term("zig"), term("go")]),
+        2 => should(vec![term("go"), term("zig"), term(WORDS[r.gen_range(0..WORDS.len())])]),
+        _ => should(vec![term("zig"), q]),
+      };
+    }
     let filt = if chance(r, 1, 5) { Some(gen_filter(r, 1, false, "")) } else { None };
     let sort = if chance(r, 3, 4) { vec![] } else { gen_sort(r) };
-    let limit = r.gen_range(1..=50);
+    let limit = if spiky && chance(r, 1, 2) { r.gen_range(1..=3) } else { r.gen_range(1..=50) };
     let mut base = base_request(&q, filt.as_ref(), limit, "bm25");
     base["sort"] = render_sort(&sort);
     if i % 2 == 0 {
@@ -431,6 +447,11 @@ fn family_relate(r: &mut StdRng, scn: usize, n_req: usize, out: &mut Vec<Value>)
       let combos: Vec<(&str, Option<usize>)> = vec![
         ("bm25", None), ("wand", None), ("bmw", None), ("bmw", Some(r.gen_range(1..=8))), ("bmw", Some(r.gen_range(9..=300))), ("wand", Some(1)),
       ];
+      let mut combos = combos;
+      if spiky {
+        // block sizes on both sides of the stored block size (128) on posting lists longer than a block
+        combos.extend([("bmw", Some(r.gen_range(100..=127))), ("bmw", Some(r.gen_range(129..=200))), ("bmw", Some(r.gen_range(201..=300)))]);
+      }
       for (exec, bs) in combos {
         let mut req = base.clone();
         req["execution"] = json!(exec);
